@@ -787,11 +787,12 @@ section tables
 open Frappy.Generated.C18
 
 /-- the limit postfixes the model knows are the ones `Limit` allows; nobody controls an output and no input is
-marked at start; clients cannot set the control flags; `insideRW` starts at 0 -/
+marked at start; clients cannot set the control flags; `insideRW` starts at 0; the default window for omitting unchanged
+updates is not 0 (so both values of `omitUnch` occur in a running node) -/
 theorem tables_match_model :
     limitPostfixes = ["limits", "max", "min"] ∧ controlledByMembers = [("self", 0)] ∧ controlledByDefault = 0 ∧
     controlActiveDefault = false ∧ controlActiveReadonly = true ∧ controlledByReadonly = true ∧
-    insideRWInitial = 0 := by decide
+    insideRWInitial = 0 ∧ 0 < omitUnchangedWithinDefaultUs := by decide
 
 end tables
 
